@@ -358,6 +358,10 @@ def check_maximize(case):
                     for v in out.variables:
                         if not M._names_equal(list(out.state_names[v]), states[v]):
                             return {"key": "maximize:state_names", "what": f"{desc}: state names of {v}: {out.state_names[v]} != {states[v]}"}
+                    if tuple(out.values.shape) != tuple(len(states[v]) for v in out.variables) or \
+                            tuple(int(c) for c in out.cardinality) != tuple(len(states[v]) for v in out.variables):
+                        return {"key": "maximize:shape", "what": f"{desc}: result variables {out.variables} with cardinality {list(out.cardinality)} "
+                                                                 f"and value shape {tuple(out.values.shape)}"}
                     for combo in itertools.product(*[states[v] for v in keep]):
                         a = dict(zip(keep, combo))
                         want = max(x for k, x in table.items() if all(dict(zip(vs, k))[v] == a[v] for v in keep))
@@ -369,7 +373,7 @@ def check_maximize(case):
 
 def groups(tier):
     quick = tier == "quick"
-    fan = 4 if quick else 8
+    fan = 4 if quick else 6
     dags = "all DAGs <= 3 nodes" if quick else "all DAGs <= 4 nodes"
     variants = ("3 random cardinality vectors from {1,2,3} per DAG" if quick else
                 "every cardinality vector from {1,2,3}^n for n <= 3, one random vector per 4-node DAG")
